@@ -168,6 +168,13 @@ func (w *Wiring) mayNil(v ssa.Value, at *ssa.BasicBlock, seen map[ssa.Value]bool
 		return false
 	case *ssa.UnOp:
 		if x.Op == token.MUL {
+			// load of a field of a local struct that never leaves the function (a parse result kept in a small struct):
+			// what the field holds at this load, path by path
+			if fa, ok := x.X.(*ssa.FieldAddr); ok {
+				if al, ok := fa.X.(*ssa.Alloc); ok && localStructOnly(al) {
+					return localFieldMay(al, fa.Field, x.Block(), x, func(v ssa.Value, at *ssa.BasicBlock) bool { return w.mayNil(v, at, seen) }, map[*ssa.BasicBlock]bool{})
+				}
+			}
 			// load of a local variable: union over its stores
 			if al, ok := x.X.(*ssa.Alloc); ok {
 				for _, r := range *al.Referrers() {
@@ -183,6 +190,130 @@ func (w *Wiring) mayNil(v ssa.Value, at *ssa.BasicBlock, seen map[ssa.Value]bool
 		return true
 	}
 	return true
+}
+
+// localStructOnly: the struct variable is used only through its fields and as a whole value (loaded, stored) — its
+// address goes nowhere else, so only the stores of this function write it.
+func localStructOnly(al *ssa.Alloc) bool {
+	if _, ok := derefT(al.Type()).Underlying().(*types.Struct); !ok || al.Referrers() == nil {
+		return false
+	}
+	for _, r := range *al.Referrers() {
+		switch u := r.(type) {
+		case *ssa.FieldAddr:
+			if u.Referrers() == nil {
+				return false
+			}
+			for _, rr := range *u.Referrers() {
+				switch q := rr.(type) {
+				case *ssa.UnOp, *ssa.DebugRef:
+				case *ssa.Store:
+					if q.Addr != ssa.Value(u) {
+						return false
+					}
+				default:
+					return false
+				}
+			}
+		case *ssa.UnOp, *ssa.DebugRef:
+		case *ssa.Store:
+			if u.Addr != ssa.Value(al) {
+				return false
+			}
+		default:
+			return false
+		}
+	}
+	return true
+}
+
+// localFieldMay: may field `field` of the local struct al be nil just before instruction `before` of block b (nil:
+// at the end of b)?  Walks back to the stores that reach this point; an edge taken because a load of the same field
+// was found non-nil settles that edge.
+func localFieldMay(al *ssa.Alloc, field int, b *ssa.BasicBlock, before ssa.Instruction, valMay func(v ssa.Value, at *ssa.BasicBlock) bool, visited map[*ssa.BasicBlock]bool) bool {
+	idx := len(b.Instrs)
+	if before != nil {
+		for i, in := range b.Instrs {
+			if in == before {
+				idx = i
+			}
+		}
+	}
+	for i := idx - 1; i >= 0; i-- {
+		st, ok := b.Instrs[i].(*ssa.Store)
+		if !ok {
+			continue
+		}
+		if fa, ok := st.Addr.(*ssa.FieldAddr); ok && fa.X == ssa.Value(al) && fa.Field == field {
+			return valMay(st.Val, b)
+		}
+		if st.Addr == ssa.Value(al) {
+			return true // the whole struct replaced by a value whose fields are not followed
+		}
+	}
+	if before == nil && visited[b] {
+		return false // a way round a loop: settled by the ways into it
+	}
+	visited[b] = true
+	if len(b.Preds) == 0 {
+		return true // the zero value
+	}
+	for _, pred := range b.Preds {
+		if fieldEdgeNonNil(pred, b, al, field) {
+			continue
+		}
+		if localFieldMay(al, field, pred, nil, valMay, visited) {
+			return true
+		}
+	}
+	return false
+}
+
+// fieldEdgeNonNil: pred ends in `if al.field ==/!= nil` (tested on a load that no store to the field follows) and the
+// edge to blk is the one on which it is not nil.
+func fieldEdgeNonNil(pred, blk *ssa.BasicBlock, al *ssa.Alloc, field int) bool {
+	if len(pred.Instrs) == 0 {
+		return false
+	}
+	iff, ok := pred.Instrs[len(pred.Instrs)-1].(*ssa.If)
+	if !ok {
+		return false
+	}
+	bo, ok := iff.Cond.(*ssa.BinOp)
+	if !ok || (bo.Op != token.EQL && bo.Op != token.NEQ) {
+		return false
+	}
+	var other ssa.Value
+	if isNilConst(bo.Y) {
+		other = bo.X
+	} else if isNilConst(bo.X) {
+		other = bo.Y
+	}
+	ld, ok := other.(*ssa.UnOp)
+	if !ok || ld.Op != token.MUL || ld.Block() != pred {
+		return false
+	}
+	fa, ok := ld.X.(*ssa.FieldAddr)
+	if !ok || fa.X != ssa.Value(al) || fa.Field != field {
+		return false
+	}
+	after := false
+	for _, in := range pred.Instrs {
+		if in == ssa.Instruction(ld) {
+			after = true
+			continue
+		}
+		if st, ok := in.(*ssa.Store); ok && after {
+			if sfa, ok := st.Addr.(*ssa.FieldAddr); (ok && sfa.X == ssa.Value(al) && sfa.Field == field) || st.Addr == ssa.Value(al) {
+				return false
+			}
+		}
+	}
+	nonNilSucc := pred.Succs[1]
+	if bo.Op == token.NEQ {
+		nonNilSucc = pred.Succs[0]
+	}
+	return nonNilSucc == blk && pred.Succs[0] != pred.Succs[1]
 }
 
 func isPointerT(t types.Type) bool {
